@@ -230,6 +230,18 @@ var c17Templates = []sim.Template{
 		e3.Cls2 = "fresh"
 		return []*sim.Action{act("recover_start", 0, v, ""), e1, act("get", 1, -9, "", "route", "/recover/end?token=abc&x=%zz"), e2, e3}
 	}},
+	{Name: "rotation-with-backend-fault", F: func(s *sim.Sim) []*sim.Action {
+		if !s.RememberActive() || !s.Cfg.Has("auth") {
+			return nil
+		}
+		v := findAcct(s, func(u *world.User) bool { return u.TOTPSecretKey == "" && u.SMSPhone == "" && u.Confirmed })
+		if v < 0 {
+			return nil
+		}
+		op := pickS(s.R, "AddRememberToken", "UseRememberToken", "Save", "Load")
+		return []*sim.Action{act("login", 0, v, "ok", "rm", "true"), act("dropsid", 0, -9, ""), act("faultnext", 0, -9, "", "op", op), act("visit", 0, -9, "", "route", "/public"),
+			act("visit", 0, -9, "", "route", "/protected/bare"), act("faultnext", 0, -9, "", "op", pickS(s.R, "Save", "AddRememberToken", "hash")), act("login", 1, v, "ok", "rm", "true")}
+	}},
 	{Name: "all-secret-kinds", F: func(s *sim.Sim) []*sim.Action {
 		if !s.Cfg.Has("auth") {
 			return nil
